@@ -426,6 +426,81 @@ def tr2(ctx, R):
         R.unrecognised("daqmx::rows x width in a loop over buffers", "nptdms/daqmx.py:1", "no rows x width product inside a loop over the buffers was recognised")
 
 
+@rule("TR3", "buffer dimensions are computed from all data objects of the segment, never from a selection", floor=1)
+def tr3(ctx, R):
+    """The length of a raw buffer is the maximum over *all* objects whose scalers use it, and the position of a buffer in the chunk is
+    the sum of the sizes of all buffers in front of it (get_buffer_dimensions).  A caller that hands the dimension code - directly or
+    through the chunk reader - a list filtered down to one channel gets zero-length buffers in front of the channel's own, i.e. reads
+    from the wrong place.  Decided at every call, inside nptdms.daqmx, of a function whose objects parameter reaches
+    get_buffer_dimensions: the argument's normal form must not be a filtering comprehension / filter() / one-element list."""
+    from .sym import Sym, show, alpha
+    from .flow import resolve_call
+    prog = ctx.prog
+    gbd = prog.func("daqmx.get_buffer_dimensions")
+    if not gbd.params:
+        raise AnchorMissing("daqmx.get_buffer_dimensions has no parameter")
+    # functions of the module with a parameter that flows (unchanged) into get_buffer_dimensions: fixpoint over direct calls
+    sinks = {gbd.qual: {gbd.params[0]}}
+    mod_funcs = [f for f in prog.functions.values() if f.module.name == "daqmx"]
+    changed = True
+    while changed:
+        changed = False
+        for f in mod_funcs:
+            for c in walk_body(f.node):
+                if not isinstance(c, ast.Call):
+                    continue
+                for callee, _k in resolve_call(prog, f, f.cls, c):
+                    if callee.qual not in sinks:
+                        continue
+                    ps_ = [p_ for p_ in callee.params if not (callee.cls is not None and not callee.is_static and p_ in ("self", "cls"))]
+                    bound = dict(zip(ps_, c.args))
+                    bound.update({k_.arg: k_.value for k_ in c.keywords if k_.arg})
+                    for p_ in sinks[callee.qual]:
+                        a = bound.get(p_)
+                        if isinstance(a, ast.Name) and a.id in f.params and a.id not in sinks.get(f.qual, set()):
+                            # passed on unchanged (no rebinding of the name in f)
+                            if not any(isinstance(x, ast.Name) and x.id == a.id and isinstance(x.ctx, ast.Store) for x in ast.walk(f.node)):
+                                sinks.setdefault(f.qual, set()).add(a.id)
+                                changed = True
+    n = 0
+    for f in mod_funcs:
+        sy = None
+        for c in walk_body(f.node):
+            if not isinstance(c, ast.Call):
+                continue
+            for callee, _k in resolve_call(prog, f, f.cls, c):
+                if callee.qual not in sinks:
+                    continue
+                ps_ = [p_ for p_ in callee.params if not (callee.cls is not None and not callee.is_static and p_ in ("self", "cls"))]
+                bound = dict(zip(ps_, c.args))
+                bound.update({k_.arg: k_.value for k_ in c.keywords if k_.arg})
+                for p_ in sorted(sinks[callee.qual]):
+                    a = bound.get(p_)
+                    if a is None:
+                        continue
+                    n += 1
+                    sy = sy or Sym(prog, f, f.cls, inline=False)
+                    env, _g = sy.env_at(c)
+                    v = sy.expr(a, env)
+                    key = "%s::objects handed to %s" % (f.qual, callee.name)
+                    sel = None
+                    def selects_by_path(cond):
+                        from .sym import contains
+                        return contains(cond, lambda y: isinstance(y, tuple) and len(y) == 3 and y[0] == "attr" and y[2] == "path")
+                    if isinstance(v, tuple) and v and v[0] == "comp" and len(v) >= 5 and v[4] and any(selects_by_path(c_) for c_ in v[4]):
+                        sel = "a comprehension that keeps only the objects with `%s`" % show(alpha([c_ for c_ in v[4] if selects_by_path(c_)][0]))[:60]
+                    elif isinstance(v, tuple) and v and v[0] == "list" and len(v[1]) == 1 and not (isinstance(v[1][0], tuple) and v[1][0] and v[1][0][0] == "splice"):
+                        sel = "a list of one object"
+                    if sel:
+                        R.violation(key, f.where(c), "`%s` is given %s: buffers that only other channels use get length 0, so the requested channel's buffer is "
+                                    "looked for at the wrong position in the chunk (and a buffer shared with a longer channel gets too few rows)" % (unparse(c)[:60], sel))
+                    else:
+                        R.ok(key, f.where(c), "objects: `%s`" % show(v)[:80])
+                break
+    if n == 0:
+        R.unrecognised("daqmx::objects handed to the dimension code", "nptdms/daqmx.py:1", "no call of get_buffer_dimensions (or of a function handing its objects on to it) inside nptdms.daqmx")
+
+
 @rule("DL1", "a digital line scaler addresses byte raw_bit_offset // 8 and bit raw_bit_offset % 8", floor=3)
 def dl1(ctx, R):
     from .sym import Sym, show, alpha
